@@ -1,4 +1,5 @@
 import T4V.Model.Keywords
+import T4V.Proofs.OptTokens
 /-!
 # Property C15 — LIKE n BUT equals the explicit cell card it abbreviates
 -/
@@ -286,5 +287,19 @@ theorem like_but_tokens (f : Field) (hf : f ≠ .imp) (a b : List String) (ia ib
 
 example : get (applyItems ([.mat "1", .rho "-2.5", .u "3", .imp ["n"] "1"] ++ [.rho "-1.0", .u "4"])) .rho
     = some (.rho "-1.0") := by decide
+
+/-! ### from the text of the cards to the tokens -/
+open T4V.CC in
+/-- **`apply_but` on the text is `applyBut` on the tokens**: the code appends a blank and the BUT options to the
+options text of cell n; tokenising the result (`parse_one_cell_worker`) gives the tokens of cell n's options followed
+by the tokens of the BUT options — so the token-level theorems above (`like_but_tokens`, `like_chain`) speak about
+what the code does with the card texts -/
+theorem apply_but_on_text (a b : List Char) (ha : a ≠ []) (hb : b ≠ [])
+    (hlast : ∀ c, a.getLast? = some c → c ≠ ':' ∧ c ≠ ' ')
+    (hfirst : ∀ c, b.head? = some c → c ≠ ':' ∧ c ≠ ' ') :
+    (optTokens (a ++ ' ' :: b)).map String.ofList
+      = applyBut ((optTokens a).map String.ofList) ((optTokens b).map String.ofList) := by
+  rw [optTokens_append a b ha hb hlast hfirst, List.map_append]
+  rfl
 
 end T4V.C15
